@@ -52,7 +52,7 @@ def tagger1(cls):
 def kerr_hook(cls, d):
     # a variant whose own from_dict leaks a KeyError (e.g. a hook indexing a mapping) on inputs carrying the marker
     if "kerr" in d:
-        raise KeyError("kerr")
+        raise KeyError("kerr:" + cls.__name__)
     return d
 """ % N_ENUM
 
@@ -669,6 +669,12 @@ def outcome_of_exc(e: BaseException):
     u = unwrap_exc(e)
     if u.startswith("exc:"):
         cur, n = e, 0
+        while cur is not None and n < 6:       # the selected class's own KeyError surfaces (it names the class)
+            if type(cur) is KeyError and cur.args and isinstance(cur.args[0], str) and cur.args[0].startswith("kerr:C"):
+                return ("keyerr", cur.args[0][5:])
+            cur = cur.__cause__ or cur.__context__
+            n += 1
+        cur, n = e, 0
         while cur is not None and n < 6:       # the dispatcher's own answer to a non-mapping input
             if type(cur) is ValueError and "discriminated by" in str(cur) and "should be a dict instance" in str(cur):
                 return ("notdict",)
@@ -975,6 +981,8 @@ def coq_outcome(o) -> str:
         return "Some ONotFound"
     if o[0] == "notdict":
         return "Some ONotDict"
+    if o[0] == "keyerr" and o[1].startswith("C") and o[1][1:].isdigit():
+        return f"Some (OKeyErr {int(o[1][1:])})"
     if o[0] == "rej" and o[1].startswith("C") and o[1][1:].isdigit():
         return f"Some (ORej {int(o[1][1:])})"
     if o[0] == "many" and all(n.startswith("C") and n[1:].isdigit() for n in o[1]):
